@@ -487,7 +487,7 @@ Proof.
       rewrite forallb_forall in Hstr. specialize (Hstr _ (In_reps st Hc Es)).
       rewrite forallb_forall in Hstr. specialize (Hstr _ (In_range128 l Hl128)).
       rewrite forallb_forall in Hstr. specialize (Hstr _ (In_range128 c Hc128)).
-      rewrite Rj, Rc, Re, Hcons, Hx in Hstr. exact Hstr.
+      rewrite Rj, Rc, Re, Hcons, Hx in Hstr. cbn [andb negb] in Hstr. exact Hstr.
   - (* MBreak *)
     destruct (itext it) as [|c s']; [exact Ha|].
     apply andb_true_iff in Ha as [Ha Hrest]. apply andb_true_iff in Ha as [Hpc Hc].
@@ -504,11 +504,11 @@ Proof.
       rewrite forallb_forall in Hbrk. specialize (Hbrk _ Hp).
       rewrite forallb_forall in Hbrk. specialize (Hbrk _ (In_reps st Hc Es)).
       rewrite forallb_forall in Hbrk. specialize (Hbrk _ (In_range128 l Hl128)).
-      unfold excluded_brk in *. rewrite Rj, Rc, Re, Hcons, Hx in Hbrk. cbn [andb negb implb] in Hbrk.
-      apply orb_true_iff in Hbrk as [J|J]; [rewrite J; reflexivity|].
-      rewrite forallb_forall in J. specialize (J _ (In_range128 f Hf128)).
-      rewrite Rf, Hfc in J. cbn [implb] in J.
-      unfold pred_holds. rewrite El, J. apply orb_true_r.
+      unfold excluded_brk in *. rewrite Rj, Rc, Re, Hcons, Hx in Hbrk. cbn [andb negb] in Hbrk.
+      destruct (junction_ok st (pred_char p)); [reflexivity|]. cbn [orb].
+      rewrite forallb_forall in Hbrk. specialize (Hbrk _ (In_range128 f Hf128)).
+      rewrite Rf, Hfc in Hbrk.
+      unfold pred_holds. rewrite El. exact Hbrk.
 Qed.
 
 Lemma adjacency_to_stream T : spacing_ok T = true ->
